@@ -400,25 +400,43 @@ def generate_fields(repo, outpath):
         with open(os.path.join(repo, "code_data", "__init__.py")) as f:
             tree = ast.parse(f.read())
         classes = []
+        frozen = []
+        mutable = []
         for n in tree.body:
             if isinstance(n, ast.ClassDef) and any(
                     (isinstance(d, ast.Call) and getattr(d.func, "id", "") == "dataclass") or getattr(d, "id", "") == "dataclass"
                     for d in n.decorator_list):
                 fields = []
+                is_frozen = any(isinstance(d, ast.Call) and getattr(d.func, "id", "") == "dataclass"
+                                and any(kw.arg == "frozen" and isinstance(kw.value, ast.Constant) and kw.value.value is True
+                                        for kw in d.keywords) for d in n.decorator_list)
+                frozen.append("(%s, %s)" % (coq_lit(n.name), "true" if is_frozen else "false"))
                 for st in n.body:
                     if isinstance(st, ast.AnnAssign) and isinstance(st.target, ast.Name):
                         fields.append("(%s, %s)" % (coq_lit(st.target.id), default_kind(st.value)))
+                        # a field typed with a mutable container would make a frozen instance deeply mutable
+                        for sub in ast.walk(st.annotation):
+                            nm = getattr(sub, "id", None) or getattr(sub, "attr", None)
+                            if nm in ("list", "List", "dict", "Dict", "set", "Set", "MutableSequence", "MutableMapping",
+                                      "MutableSet", "bytearray", "DefaultDict", "OrderedDict", "Deque", "deque"):
+                                mutable.append("(%s, %s)" % (coq_lit(n.name), coq_lit(st.target.id)))
                 classes.append("(%s, [%s])" % (coq_lit(n.name), "; ".join(fields)))
         text = ("(* generated by harness/translate_src.py from code_data/__init__.py on every run; do not edit *)\n"
                 "From Coq Require Import String List.\nImport ListNotations.\n"
                 "From PCD Require Import Base.PyBase Model.Json Model.JsonFields.\n\n"
                 "Definition source_fields : list (str * list (str * field_default)) :=\n  [%s].\n"
-                "Definition fields_translated := true.\n" % ";\n   ".join(classes))
+                "Definition fields_translated := true.\n"
+                "(* @dataclass(frozen=True) on each class; fields annotated with a mutable container type *)\n"
+                "Definition source_frozen : list (str * bool) :=\n  [%s].\n"
+                "Definition source_mutable_fields : list (str * str) :=\n  [%s].\n"
+                % (";\n   ".join(classes), "; ".join(frozen), "; ".join(mutable)))
         notes["fields"] = "translated (%d classes)" % len(classes)
     except (Decline, OSError, SyntaxError) as e:
         text = ("(* dataclass fields declined: %s *)\nFrom PCD Require Import Base.PyBase Model.Json Model.JsonFields.\n"
                 "Definition source_fields : list (str * list (str * field_default)) := model_fields.\n"
-                "Definition fields_translated := false.\n" % e)
+                "Definition fields_translated := false.\n"
+                "Definition source_frozen : list (str * bool) := map (fun cf => (fst cf, true)) model_fields.\n"
+                "Definition source_mutable_fields : list (str * str) := nil.\n" % e)
         notes["fields"] = "declined: %s" % e
     notes["changed"] = write_if_changed(outpath, text)
     return notes
